@@ -228,6 +228,12 @@ func (d *deepView) pathName(v ssa.Value, fr *frame, depth int) string {
 	case *ssa.TypeAssert:
 		return d.pathName(x.X, r.fr, depth+1) + ".(" + types.TypeString(x.AssertedType, nil) + ")"
 	case *ssa.Call:
+		// a decoded integer is named by the field it is decoded into
+		if _, _, put, isU := uintCallWidth(ir.CallID(x)); isU && !put {
+			if sink := d.fieldSink(dval{x, r.fr}, 0); sink != "" {
+				return "decoded:" + sink
+			}
+		}
 		return fmt.Sprintf("call:%s@%d", ir.CallID(x), x.Pos())
 	case *ssa.Convert:
 		return d.pathName(x.X, r.fr, depth+1)
@@ -361,10 +367,16 @@ func (d *deepView) rangeLiteral(v ssa.Value, fr *frame) (ssa.Value, int64, bool)
 				if a, _, ok := d.literalArray(ia.X, fr); ok {
 					// the canonical range index: phi(-1, phi+1) + 1
 					if bo, ok := ia.Index.(*ssa.BinOp); ok && bo.Op == token.ADD {
-						if ph, ok := bo.X.(*ssa.Phi); ok && len(ph.Edges) == 2 {
+						if ph, ok := bo.X.(*ssa.Phi); ok && len(ph.Edges) >= 2 {
 							if k, isK := ir.ConstInt(bo.Y); isK && k == 1 {
 								c0, ok0 := ir.ConstInt(ph.Edges[0])
-								if ok0 && c0 == -1 && ph.Edges[1] == ssa.Value(bo) {
+								back := true
+								for _, e := range ph.Edges[1:] {
+									if e != ssa.Value(bo) {
+										back = false
+									}
+								}
+								if ok0 && c0 == -1 && back {
 									idxV = ia.Index
 									n = a.Type().Underlying().(*types.Pointer).Elem().Underlying().(*types.Array).Len()
 									return
